@@ -8,6 +8,9 @@ pub mod c11;
 pub mod c12;
 pub mod c13;
 pub mod c14;
+pub mod c15;
+pub mod c16;
+pub mod c20;
 pub mod common;
 pub mod sendview;
 pub mod session;
@@ -26,5 +29,8 @@ pub fn all() -> Vec<Box<dyn Prop>> {
         Box::new(c12::C12),
         Box::new(c13::C13),
         Box::new(c14::C14),
+        Box::new(c15::C15),
+        Box::new(c16::C16),
+        Box::new(c20::C20),
     ]
 }
